@@ -1,7 +1,7 @@
 (* C05 - every NLRI family round-trips and reports its exact encoded length.
    One statement covers the 13 families x {plain, ADD-PATH}: [n_fam] ranges over all of them. *)
 From Coq Require Import List NArith Bool.
-From RC Require Import Base.Res Base.Wire Model.Nlri Proofs.NlriProofs.
+From RC Require Import Base.Res Base.Wire Model.Nlri Proofs.NlriProofs Proofs.NlriDecoded.
 Import ListNotations.
 
 (* encode then decode yields the value and consumes exactly the encoded octets, whatever follows *)
@@ -28,6 +28,30 @@ Theorem c05_concat : forall k ap l bs,
 Proof. exact c05_concat_proof. Qed.
 Print Assumptions c05_concat.
 
+(* the hypothesis of the theorems above is met by everything the decoder itself produces: every value parse_nlri returns on a
+   string of octets is well-formed, of the family asked for, with a path identifier exactly when one was parsed ... *)
+Theorem c05_decoded_wellformed : forall k ap p n p',
+  wf_bytes (p_rest p) -> parse_nlri k ap p = Ok (n, p') ->
+  wf_nlri n = true /\ n_fam n = k /\ (match n_pathid n with Some _ => true | None => false end) = ap /\ wf_bytes (p_rest p').
+Proof. exact parse_nlri_wf. Qed.
+Print Assumptions c05_decoded_wellformed.
+
+(* ... so a decoded NLRI always re-encodes, to exactly compose_len octets, and that encoding decodes back to the same value
+   (decode . encode . decode = decode), for all 13 families with and without path identifiers *)
+Theorem c05_decoded_reencodes : forall k ap p n p' rest pos,
+  wf_bytes (p_rest p) -> parse_nlri k ap p = Ok (n, p') ->
+  exists bs, compose_nlri n = Ok bs /\ length bs = compose_len n /\
+             parse_nlri k ap (mkP (bs ++ rest) pos) = Ok (n, mkP rest (pos + length bs)).
+Proof. exact decoded_reencodes. Qed.
+Print Assumptions c05_decoded_reencodes.
+
+(* and so is every item an NLRI iterator yields *)
+Theorem c05_iterated_wellformed : forall fuel k ap p items,
+  wf_bytes (p_rest p) -> nlri_iter fuel k ap p = Some items ->
+  forall n, In (Ok n) items -> wf_nlri n = true /\ n_fam n = k /\ (match n_pathid n with Some _ => true | None => false end) = ap.
+Proof. exact nlri_iter_wf. Qed.
+Print Assumptions c05_iterated_wellformed.
+
 (* non-vacuity: concrete well-formed values of several families, including a label stack and a path id *)
 Example c05_examples :
   wf_nlri (mkNlri Ipv4Unicast (Some 7%N) (BPrefix (mkPfx false 23 [10; 1; 2; 0]%N))) = true /\
@@ -35,4 +59,13 @@ Example c05_examples :
             (BVpn (mkPfx true 48 ([32; 1; 13; 184; 0; 1] ++ repeat 0 10)%N) [0; 1; 16; 0; 1; 33]%N [0; 0; 0; 100; 0; 0; 0; 1]%N)) = true /\
   wf_nlri (mkNlri Ipv4FlowSpec None (BFlow [1; 24; 10; 0; 0; 3; 129; 6]%N)) = true /\
   wf_nlri (mkNlri L2VpnVpls None (BVpls [0; 0; 0; 100; 0; 0; 0; 1]%N 1 2 3 1048575)) = true.
+Proof. vm_compute. auto. Qed.
+
+(* a 32-octet route-target NLRI (length octet 249..255 on the wire) is a value the decoder yields; it is written back with the
+   saturated length octet 255 and reads back as the same 32 octets *)
+Example c05_route_target_32 :
+  let raw := repeat 7%N 32 in
+  parse_nlri Ipv4RouteTarget false (mkP (250 :: raw) 0) = Ok (mkNlri Ipv4RouteTarget None (BRouteTarget raw), mkP [] 33) /\
+  compose_nlri (mkNlri Ipv4RouteTarget None (BRouteTarget raw)) = Ok (255 :: raw) /\
+  parse_nlri Ipv4RouteTarget false (mkP (255 :: raw) 0) = Ok (mkNlri Ipv4RouteTarget None (BRouteTarget raw), mkP [] 33).
 Proof. vm_compute. auto. Qed.
